@@ -395,6 +395,9 @@ func c33RunDl(t lib.TB, test string, c c33DlCase) (nontrivial bool) {
 		})
 		got := f.syncedBlocks()
 		switch {
+		case carried != nil && carried.GetHeight() != c.Height:
+			// a block of another height than the requested one: whether that counts as malformed is not C33's call
+			lib.Class("fetch_other_height_not_judged")
 		case carried != nil:
 			if err != nil || len(got) != 1 || !bytes.Equal(types.Encode(got[0].Block), types.Encode(carried)) || got[0].Pid != f.remote.Pretty() {
 				lib.Violation(t, "C33", test, c, "a well-formed download reply was not handed to the blockchain module (err=%v, %d blocks handed over)", err, len(got))
@@ -495,7 +498,9 @@ func c33FuzzDownloadResp(t lib.TB, test string, height int64, raw []byte) {
 		err = fx.p.downloadBlock(height, fx.p.initJob([]string{fx.remote.String()}, "c33-task"))
 	})
 	carried, got := c33Carried(raw), fx.syncedBlocks()
-	if carried != nil {
+	if carried != nil && carried.GetHeight() != height {
+		lib.Class("fuzz_other_height_not_judged")
+	} else if carried != nil {
 		lib.Class("fuzz_block_delivered")
 		lib.NonTrivial(lib.Fingerprint(raw))
 		if err != nil || len(got) != 1 || !bytes.Equal(types.Encode(got[0].Block), types.Encode(carried)) {
